@@ -138,7 +138,24 @@ def build_corpus(run, thorough):
         t = replies.gen_table(crng, 1.0)
         if reference(t)[0]:
             progs.append(RProg(t))
-    c = replies.ReplyCorpus(progs, tag="replies_%s" % ("t" if thorough else "q")).build()
+    for _ in range(4):
+        try:
+            c = replies.ReplyCorpus(progs, tag="replies_%s" % ("t" if thorough else "q")).build()
+            break
+        except common.BuildError as e:
+            # rustc names the generated file: a valid reply table whose expansion does not compile is a failing input
+            bad = {}
+            for m in re.finditer(r"src/p(\d+)\.rs:\d+:\d+: (error[^\n]*)", e.output or ""):
+                bad.setdefault(int(m.group(1)), m.group(2))
+            if not bad:
+                raise
+            for i, msg in sorted(bad.items()):
+                if i < len(progs):
+                    run.oracle_fail("a contract with a valid reply table does not compile with the generated code: %s" % msg[:300],
+                                    {"level": "L2", "program": progs[i].contract(bodies=True).rust_impl()})
+            progs = [p for i, p in enumerate(progs) if i not in bad]
+    else:
+        raise common.BuildError("reply corpus build failed repeatedly", "")
     run.programs += len(progs)
     return c
 
